@@ -67,6 +67,7 @@ type FuncContract struct {
 	HasSpec  bool // has requires/ensures (modular use at call sites)
 	Opaque   bool // treat calls as opaque (no contract, no inlining)
 	Goroutine bool // entry point of a goroutine: no caller context
+	NotThreadSafe bool // (assumed) the method mutates its receiver without synchronisation: the receiver must be unshared or locked
 	Recover  bool  // must contain a deferred recover (C18 structural)
 	Params   []string // assumed contracts: parameter names
 	Clock    bool     // result is a read of the monotone ghost clock
@@ -344,6 +345,8 @@ func (cs *Contracts) LoadContractFile(path, pkg string, repoStyle bool) error {
 			cur.Pure = true
 		case "fresh":
 			cur.Fresh = true
+		case "not-threadsafe":
+			cur.NotThreadSafe = true
 		case "goroutine":
 			cur.Goroutine = true
 		case "may-panic":
